@@ -193,9 +193,9 @@ func specName(ss *crew.SpecSource) string {
 func machineKey(st *core.State, ss *crew.SpecSource) string {
 	node, bs := "start", "{}"
 	if st != nil {
-		if st.NodeName != "" {
-			node = st.NodeName
-		}
+		// (a state that is there names its node: what is reported for a machine is the state the crew holds, in
+		// which a missing node has been filled in - "" is not "start")
+		node = st.NodeName
 		if st.Bs != nil {
 			bs = rstep.Canon(map[string]interface{}(st.Bs))
 		}
